@@ -1,70 +1,165 @@
-import VaxisModel.Lemmas.ConcShutdown
+import VaxisModel.Lemmas.ConcProgress
+import VaxisModel.Lemmas.ConcFlag
+import VaxisModel.Model.ConcSession
 import VaxisModel.Witness.F53
 import VaxisModel.Gen.Conc
 
 /-!
-# C10 — shutdown completes (as far as it is true of the code)
+# C10 — shutdown completes, for every schedule
 
-Over the shutdown LTS of `Model/Conc.lean` (parser goroutine, input goroutine, callers of `Close`,
-terminal).  Real time is abstracted; "completes" means: a terminating run of internal labels exists
-(the schedule a weakly fair scheduler eventually produces), after which the parser goroutine and the
-input goroutine have finished and `Close` has returned.
+Over the shutdown LTS of `Model/Conc.lean` (parser goroutine, input goroutine, callers of `Close` and
+of `Suspend`, `Resume`, the terminal, the application).  Real time is abstracted.
+
+* `variant_decreases` / `sched_runs_bounded`: a variant function strictly decreases on EVERY label a
+  scheduler may pick, in every state: no schedule runs for ever, no fairness assumption is needed.
+* `shutdown_completes`: under the invariant `Inv` (a session in which `Close` is called by any number
+  of goroutines other than the input goroutine, `Suspend`/`Resume` by a sequential main goroutine;
+  a consumer that keeps receiving or room in the queue for what is in flight; no kill signal) EVERY
+  run of scheduler labels stays inside the invariant, and EVERY maximal one ends with all callers
+  returned, the parser and input goroutines done, `chQuit` closed exactly once.
+* `session_invariant`: the invariant holds along every history with any number of
+  Suspend/Resume cycles, frames of input and `Close` calls.
+* `quit_closed_once`: `chQuit` is closed at most once in every reachable state, with no hypothesis
+  (F33 repaired).
+* F13 (Close on the input goroutine) and F53 (no consumer and no room) are the two hypotheses of
+  `Inv` that the code does not guarantee; `shutdown_completes_full_fails`, `Witness/F13`, `F53`.
+* The two source facts the theorems need (`suspend_order`, `resume_clears`) are pinned to
+  `Gen/Conc.lean`; `order_matters` / `resume_must_clear` show the LTS is stuck / leaks without them.
 -/
 namespace VaxisModel.Props.C10Shutdown
-open VaxisModel.Model.Conc VaxisModel.Lemmas.ConcShutdown
+open VaxisModel.Model.Conc VaxisModel.Lemmas.ConcShutdown VaxisModel.Lemmas.ConcMeasure VaxisModel.Lemmas.ConcInv
+  VaxisModel.Lemmas.ConcFlag
+
+/-- **Variant.** Every label a scheduler may pick — a step of the parser goroutine, of the input
+goroutine (either arm of its `select`), of any caller of `Close`/`Suspend`, the terminal's reply to a
+written DA1 query, the application receiving an event — strictly lowers `mu`, in every state. -/
+theorem variant_decreases (s s' : SSys) (l : SLabel) (hl : l.sched = true) (h : snext s l = some s') : mu s' < mu s :=
+  mu_decreases s s' l hl h
+
+/-- Hence every run of scheduler labels from `s` has at most `mu s` steps: without new events from
+the environment the system always comes to rest. No bound on capacities, pending input or callers. -/
+theorem sched_runs_bounded (s s' : SSys) (ls : List SLabel) (hl : ∀ l ∈ ls, l.sched = true) (h : srun s ls = some s') :
+    ls.length + mu s' ≤ mu s :=
+  sched_run_bounded ls s s' hl h
+
+/-- … and rest is reachable: some schedule of at most `mu s` steps leads to a state of rest. -/
+theorem rest_reachable (s : SSys) :
+    ∃ ls s', (∀ l ∈ ls, l.sched = true) ∧ srun s ls = some s' ∧ s'.quiescent = true :=
+  exists_rest (mu s) s (Nat.le_refl _)
+
+/-- A state that is not at rest has an enabled scheduler label. -/
+theorem not_at_rest_enabled (s : SSys) (h : s.quiescent = false) : ∃ l s', l.sched = true ∧ snext s l = some s' :=
+  enabled_of_not_quiescent s h
+
+/-- **Shutdown completes, all runs.** From a state satisfying the invariant, every run of scheduler
+labels (every interleaving, of any length) stays inside the invariant and is bounded by the
+variant; whenever it reaches a state of rest — as every maximal run does — all callers of `Close` and
+`Suspend` have returned; if the session is suspended the parser goroutine and the input goroutine
+are done; if it is closed, `chQuit` has been closed exactly once and the session is suspended. -/
+theorem shutdown_completes (s s' : SSys) (ls : List SLabel) (hinv : Inv s) (hl : ∀ l ∈ ls, l.sched = true)
+    (h : srun s ls = some s') :
+    Inv s' ∧ ls.length + mu s' ≤ mu s ∧
+    (s'.quiescent = true →
+      sumBy fUnret s'.callers = 0 ∧ (s'.suspendedFlag = true → s'.ppc = .done ∧ s'.ipc = .done) ∧
+      (s'.closedFlag = true → s'.quitCloses = 1 ∧ s'.suspendedFlag = true)) := by
+  have hinv' := inv_sched_run ls s s' hl hinv h
+  exact ⟨hinv', sched_run_bounded ls s s' hl h, fun hq => rest_is_done s' hinv' hq⟩
+
+/-- In the vocabulary of `SSys.final`: after `Close` was called (the flag is set, or a caller of
+`Close` is present), every maximal run ends in a final state — `Close` returned for every caller,
+parser goroutine done, input goroutine done — with `chQuit` closed once. -/
+theorem close_completes (s s' : SSys) (ls : List SLabel) (hinv : Inv s) (hl : ∀ l ∈ ls, l.sched = true)
+    (h : srun s ls = some s') (hrest : s'.quiescent = true) (hclosed : s'.closedFlag = true) :
+    s'.final = true ∧ s'.quitCloses = 1 := by
+  obtain ⟨_, _, hdone⟩ := shutdown_completes s s' ls hinv hl h
+  obtain ⟨h1, h2, h3⟩ := hdone hrest
+  obtain ⟨hq, hs⟩ := h3 hclosed
+  obtain ⟨hp, hi⟩ := h2 hs
+  refine ⟨?_, hq⟩
+  simp only [SSys.final, Bool.and_eq_true, beq_iff_eq, List.all_eq_true]
+  refine ⟨⟨hp, hi⟩, fun c hc => ?_⟩
+  have := sumBy_zero_all fUnret s'.callers h1 c hc
+  obtain ⟨pc, k⟩ := c
+  cases pc <;> simp [fUnret] at this ⊢
+
+/-- A caller of `Close` that is past the flag forces the flag: with `close_completes`, from any
+invariant state in which some goroutine has entered `Close`, every maximal run ends final. -/
+theorem close_called_completes (s s' : SSys) (ls : List SLabel) (hinv : Inv s) (hl : ∀ l ∈ ls, l.sched = true)
+    (h : srun s ls = some s') (hrest : s'.quiescent = true) (c : Caller) (hc : c ∈ s'.callers) (hk : c.inClose = true) :
+    s'.final = true ∧ s'.quitCloses = 1 := by
+  obtain ⟨hinv', _, hdone⟩ := shutdown_completes s s' ls hinv hl h
+  obtain ⟨h1, _, _⟩ := hdone hrest
+  have hret := sumBy_zero_all fUnret s'.callers h1 c hc
+  have hpast : fPastFlag c = 1 := by
+    obtain ⟨pc, k⟩ := c
+    simp at hk; subst hk
+    cases pc <;> simp [fUnret] at hret ⊢
+    simp [fPastFlag]
+  have hge := sumBy_pos_of_mem fPastFlag s'.callers c hc
+  have hflag := hinv'.pastFlag (by omega)
+  have : s'.closedFlag = true := by cases hf : s'.closedFlag <;> simp [hf] at hflag ⊢
+  exact close_completes s s' ls hinv hl h hrest this
+
+/-- Non-vacuity of the invariant: a running session, capacity 8 with 3 events queued, input pending
+(a key whose handling posts an event, half of an escape sequence), nobody consuming. -/
+example : Inv { qcap := 8, queueLen := 3, consumer := false, inbuf := [some 1, none], ppc := .reading } :=
+  inv_running 8 3 false [some 1, none] (by decide) (Or.inr (by decide))
+
+/-! ### histories: any number of Suspend/Resume cycles -/
+
+/-- The histories of a session: scheduler labels at any time; new terminal input at any time (as long
+as there is a consumer or room); `Close` from any goroutine at any time except while the main
+goroutine is inside a bare `Suspend`; `Suspend` and `Resume` by the sequential main goroutine (when
+nobody is inside `Close`/`Suspend`; `Resume` before `Close`). -/
+inductive SessionReach (s0 : SSys) : SSys → Prop
+  | init : SessionReach s0 s0
+  | sched {s s'} (l : SLabel) : SessionReach s0 s → l.sched = true → snext s l = some s' → SessionReach s0 s'
+  | input {s s'} (u : Option Nat) : SessionReach s0 s → snext s (.termInput u) = some s' → RoomOK s' → SessionReach s0 s'
+  | close {s s'} : SessionReach s0 s → snext s .callClose = some s' → sumBy fSusp s.callers = 0 → RoomOK s' → SessionReach s0 s'
+  | suspend {s s'} : SessionReach s0 s → snext s .callSuspend = some s' → idle s → RoomOK s' → SessionReach s0 s'
+  | resume {s s'} : SessionReach s0 s → snext s .resume = some s' → idle s → s.closedFlag = false → SessionReach s0 s'
+
+/-- **Any number of cycles.** The invariant holds in every state of every history of a session
+that starts in an invariant state (e.g. a running session, `inv_running`): so `shutdown_completes`
+applies after any number of Suspend/Resume cycles, frames of input and `Close` calls — every
+`Suspend` and every `Close` returns under every schedule and leaves no library goroutine behind. -/
+theorem session_invariant (s0 s : SSys) (h0 : Inv s0) (h : SessionReach s0 s) : Inv s := by
+  induction h with
+  | init => exact h0
+  | sched l _ hl hn ih => exact inv_sched _ _ l hl ih hn
+  | input u _ hn hr ih => exact inv_termInput _ _ u ih hn hr
+  | close _ hn hs hr ih => exact inv_callClose _ _ ih hn hs hr
+  | suspend _ hn hi hr ih => exact inv_callSuspend _ _ ih hn hi hr
+  | resume _ hn hi ho ih => exact inv_resume _ _ ih hn hi ho
+
+/-- Non-vacuity: two Suspend/Resume cycles and a Close, each run to rest by the scheduler that lets
+the library run ahead of the caller; every call returns with the goroutines done. -/
+example : session .libFirst 200 { inbuf := [some 1, some 1] } ['S', 'R', 'S', 'R', 'C'] =
+    ["S:ret,done", "R", "S:ret,done", "R", "C:ret,done"] := by decide
+
+/-! ### F33 repaired: `chQuit` is closed at most once, unconditionally -/
+
+/-- In every state reachable — by any labels whatsoever: any number of concurrent `Close` callers,
+`Close` on the input goroutine's signal arm, Suspend/Resume at any time — from a state in which
+nobody has called `Close` yet, `close(vx.chQuit)` has run at most once. -/
+theorem quit_closed_once (s0 s : SSys) (h1 : s0.callers = []) (h2 : s0.closedFlag = false) (h3 : s0.quitCloses = 0)
+    (h4 : ∀ c, s0.ipc ≠ .closing c) (h : SReachable s0 s) : s.quitCloses ≤ 1 ∧ s.panicked = false := by
+  have hf := (flagInv_reachable s0 s (flagInv_init s0 h1 h2 h3 h4) h).flag
+  have hb := b2n_le s.closedFlag
+  have : s.quitCloses ≤ 1 := by omega
+  refine ⟨this, ?_⟩
+  simp only [SSys.panicked, decide_eq_false_iff_not]
+  omega
+
+/-! ### what remains false of the code -/
 
 /-- Full statement: whenever somebody has called `Close`, from every reachable state internal
-moves alone lead to a final state.  False of the current code: F53, F13, F33 (Witness/). -/
+moves alone lead to a final state.  False of the current code: F53 (nobody consumes and the queue
+has no room) and F13 (`Close` on the input goroutine) — exactly the two hypotheses of `Inv` beyond
+the sequential main goroutine. -/
 def shutdown_completes_full : Prop :=
   ∀ (s0 s : SSys), s0.callers = [] → SReachable s0 s → s.callers ≠ [] →
     ∃ ls s', (∀ l ∈ ls, l.internal = true) ∧ srun s ls = some s' ∧ s'.final = true
-
-/-- Proved part.  `Close()` is called by one goroutine that is not the input goroutine, at any
-moment of input processing — the parser blocked in `ReadRune` with nothing unread, at its `select`,
-or inside `emit`; any sequences waiting in the channel; the input goroutine at its `select` or in
-the middle of posting — provided the event queue has room for the posts still in flight (this is
-what F53 violates), nobody else is closing (F33) and the closer is not the input goroutine itself
-(F13).  Then internal moves alone — the terminal answering the DA1 query being one of them — end
-with the parser goroutine finished, the input goroutine finished, `Close` returned and `chQuit`
-closed exactly once more. For every capacity, queue content and number of pending sequences. -/
-theorem shutdown_completes_partial (s : SSys)
-    (hpp : (s.ppc = .reading ∧ s.inbuf = []) ∨ s.ppc = .top ∨ ∃ k, s.ppc = .emitting k)
-    (hseqs : ∀ t ∈ s.seqs, t ≠ .eof)
-    (hi : s.ipc = .select ∨ ∃ k, s.ipc = .posting k)
-    (hcall : s.callers = [.checkFlag]) (hcf : s.closedFlag = false) (hsf : s.suspendedFlag = false)
-    (hcs : s.closeSig = 0) (hcd : s.closedSig = 0) (hda : s.da1Pending = 0) (hsc : s.seqsClosed = false)
-    (hroom : s.queueLen + ipcPosts s.ipc + toksPosts s.seqs + ppcPosts s.ppc ≤ s.qcap) :
-    ∃ ls s', (∀ l ∈ ls, l.internal = true) ∧ srun s ls = some s' ∧ s'.final = true ∧
-      s'.quitCloses = s.quitCloses + 1 :=
-  shutdown_run s hpp hseqs hi hcall hcf hsf hcs hcd hda hsc hroom
-
-/-- Non-vacuity: a key is being posted (two posts to go), another waits in the channel, the parser
-is inside `emit` for a third; capacity 8 with 3 events queued. -/
-example : ∃ ls s', (∀ l ∈ ls, l.internal = true) ∧
-    srun { qcap := 8, queueLen := 3, ppc := .emitting 1, seqs := [.seq 1], ipc := .posting 2, callers := [.checkFlag] } ls = some s' ∧
-    s'.final = true ∧ s'.quitCloses = 1 :=
-  shutdown_completes_partial _ (Or.inr (Or.inr ⟨1, rfl⟩)) (by simp) (Or.inr ⟨2, rfl⟩) rfl rfl rfl rfl rfl rfl rfl (by decide)
-
-/-- In particular such a state is not deadlocked: some internal label is enabled. -/
-theorem no_deadlock_partial (s : SSys)
-    (hpp : (s.ppc = .reading ∧ s.inbuf = []) ∨ s.ppc = .top ∨ ∃ k, s.ppc = .emitting k)
-    (hseqs : ∀ t ∈ s.seqs, t ≠ .eof)
-    (hi : s.ipc = .select ∨ ∃ k, s.ipc = .posting k)
-    (hcall : s.callers = [.checkFlag]) (hcf : s.closedFlag = false) (hsf : s.suspendedFlag = false)
-    (hcs : s.closeSig = 0) (hcd : s.closedSig = 0) (hda : s.da1Pending = 0) (hsc : s.seqsClosed = false)
-    (hroom : s.queueLen + ipcPosts s.ipc + toksPosts s.seqs + ppcPosts s.ppc ≤ s.qcap) :
-    s.stuck = false := by
-  obtain ⟨ls, s', hint, hrun, hfin, _⟩ := shutdown_run s hpp hseqs hi hcall hcf hsf hcs hcd hda hsc hroom
-  cases hst : s.stuck with
-  | false => rfl
-  | true =>
-    cases ls with
-    | nil =>
-      simp [srun] at hrun; subst hrun
-      simp [SSys.final, hcall] at hfin
-    | cons l t =>
-      have := stuck_forever s hst l t (hint l (by simp))
-      rw [this] at hrun; exact absurd hrun (by simp)
 
 /-- The full statement fails: F53's witness run reaches a state from which no internal label is
 ever enabled again, with `Close` still waiting. -/
@@ -81,14 +176,38 @@ theorem shutdown_completes_full_fails : ¬ shutdown_completes_full := by
   | nil => simp [srun] at hr; subst hr; rw [hnf] at hfin; exact absurd hfin (by simp)
   | cons l t => rw [hstuck l t (hint l (by simp))] at hr; exact absurd hr (by simp)
 
-/-- `Close` and `Suspend` have the protocol skeleton the LTS models: unsynchronised check of
-`closed`, quit event, flag, deferred `close(chQuit)`, `Suspend`, console close; `Suspend`: the
-`suspended` guard, close signal, DA1 query, wait. (Locals, logging and terminal restoration are not
-part of the skeleton.) -/
+/-! ### the source facts the theorems need -/
+
+/-- `Close` tests and sets `vx.closed` under `closeMu`, posts the quit event, defers
+`close(chQuit)`, runs `Suspend`, closes the console; `Suspend`: the `suspended` guard, close signal,
+DA1 query, wait; `Resume`: `openTty`, then `vx.suspended = false`. (Locals, logging and terminal
+restoration are not part of the skeleton.) -/
 theorem close_shape :
-    Gen.Conc.skeleton_Close = ["if:vx.closed", "vx.PostEvent", "set:vx.closed=true", "defer:close(vx.chQuit)",
-      "vx.Suspend", "vx.console.Close"] ∧
+    Gen.Conc.skeleton_Close = ["vx.closeMu.Lock", "if:vx.closed", "vx.closeMu.Unlock", "set:vx.closed=true",
+      "vx.closeMu.Unlock", "vx.PostEvent", "defer:close(vx.chQuit)", "vx.Suspend", "vx.console.Close"] ∧
     Gen.Conc.skeleton_Suspend = ["if:vx.suspended", "set:vx.suspended=true", "vx.parser.Close", "io.WriteString",
-      "vx.parser.WaitClose"] := by decide +kernel
+      "vx.parser.WaitClose"] ∧
+    Gen.Conc.skeleton_Resume = ["vx.openTty", "set:vx.suspended=false"] := by decide +kernel
+
+/-- The hypotheses `Inv.order` and `Inv.clears` are facts of the source: `Suspend` signals the parser
+before it writes the DA1 query that wakes the reader, `Resume` clears `vx.suspended`, and `Close`
+guards itself with an atomic test-and-set. -/
+theorem suspend_order : da1FirstOf Gen.Conc.skeleton_Suspend = false := by decide +kernel
+theorem resume_clears : resumeClearsOf Gen.Conc.skeleton_Resume = true := by decide +kernel
+theorem close_guarded : closeGuardedOf Gen.Conc.skeleton_Close = true := by decide +kernel
+
+/-- The order matters: with the DA1 query written before the close signal, the schedule in which the
+reply is consumed before the signal is sent (slow tty / descheduled caller) ends with the parser
+blocked in `ReadRune` and `Suspend` waiting for ever. -/
+theorem order_matters :
+    session .libFirst 200 { da1First := true } ['S'] = ["S:hang,alive"] ∧
+    session .libFirst 200 { da1First := false } ['S'] = ["S:ret,done"] := by decide
+
+/-- `Resume` must clear `vx.suspended`: otherwise the next `Suspend` (or `Close`) takes the
+"already suspended" shortcut and returns while the goroutines started by `Resume` stay alive. -/
+theorem resume_must_clear :
+    session .libFirst 200 { resumeClears := false } ['S', 'R', 'S'] = ["S:ret,done", "R", "S:ret,alive"] ∧
+    session .libFirst 200 { resumeClears := false } ['S', 'R', 'C'] = ["S:ret,done", "R", "C:ret,alive"] ∧
+    session .libFirst 200 {} ['S', 'R', 'C'] = ["S:ret,done", "R", "C:ret,done"] := by decide
 
 end VaxisModel.Props.C10Shutdown
